@@ -1851,9 +1851,11 @@ func (c S3ApiController) PutActions(ctx *fiber.Ctx) error {
 		contentLengthStr = "0"
 	}
 	// Use decoded content length if available because the
-	// middleware will decode the chunked transfer encoding
+	// middleware will decode the chunked transfer encoding.
+	// Only a streaming payload is decoded: otherwise the body
+	// is Content-Length bytes long whatever the header claims.
 	decodedLength := ctx.Get("X-Amz-Decoded-Content-Length")
-	if decodedLength != "" {
+	if decodedLength != "" && utils.IsStreamingPayload(ctx.Get("X-Amz-Content-Sha256")) {
 		contentLengthStr = decodedLength
 	}
 
